@@ -6,6 +6,7 @@ mod gc;
 mod regs;
 mod run;
 mod compile;
+mod num;
 
 fn main() {
     let args: Vec<String> = std::env::args().collect();
@@ -17,6 +18,7 @@ fn main() {
         "regs" => regs::main(&rest),
         "run" => run::main(&rest),
         "compile" => compile::main(&rest),
+        "num" => num::main(&rest),
         _ => {
             eprintln!("usage: th <engine> <args..>");
             2
